@@ -98,7 +98,10 @@ impl FunctionMarkupPass {
         }
         // TODO: Handle functions with no return statements
         else {
-            Err(Box::new(CfgError::UnexpectedError))
+            Err(Box::new(CfgError::FunctionWithoutReturn(
+                entry.node(),
+                entry.labels(),
+            )))
         }
     }
 }
